@@ -184,8 +184,11 @@ class Element(UnicodeMixin):
 
         """
         if self.parent is not None:
-            if self in self.parent.children:
-                self.parent.children.remove(self)
+            siblings = self.parent.children
+            for index in range(len(siblings)):
+                if siblings[index] is self:
+                    del siblings[index]
+                    break
             self.parent = None
         return self
 
@@ -401,9 +404,13 @@ class Element(UnicodeMixin):
         @type content: L{Element} or [L{Element},...]
 
         """
-        if child not in self.children:
+        index = None
+        for i in range(len(self.children)):
+            if self.children[i] is child:
+                index = i
+                break
+        if index is None:
             raise Exception("child not-found")
-        index = self.children.index(child)
         self.remove(child)
         if not isinstance(content, (list, tuple)):
             content = (content,)
@@ -931,13 +938,12 @@ class Element(UnicodeMixin):
 
     def prune(self):
         """Prune the branch of empty nodes."""
-        pruned = []
+        kept = []
         for c in self.children:
             c.prune()
-            if c.isempty(False):
-                pruned.append(c)
-        for p in pruned:
-            self.children.remove(p)
+            if not c.isempty(False):
+                kept.append(c)
+        self.children[:] = kept
 
     def __childrenAtPath(self, parts):
         result = []
